@@ -995,73 +995,84 @@ class LangServer:
         # A container that includes all the FQSN signatures for objects that
         # are linked to the rename request and that should also be replaced
         override_cache: list[str] = []
-        refs = {}
-        ref_objs = []
-        for filename, file_obj in file_set:
-            file_refs = []
-            # Search through file line by line
-            for i, line in enumerate(file_obj.contents_split):
-                if len(line) == 0:
-                    continue
-                # Skip comment lines
-                line = file_obj.strip_comment(line)
-                if (line == "") or (line[0] == "#"):
-                    continue
-                for match in NAME_REGEX.finditer(line):
-                    var_def = self.get_definition(file_obj, i, match.start(1) + 1)
-                    if var_def is None:
+        # Objects linked to the request (overriding bindings, the binding of an
+        # implementation) may be met after some of their uses, depending on the
+        # order of the files: scan a second time knowing all of them
+        for _ in range(2):
+            n_linked = len(override_cache)
+            refs = {}
+            ref_objs = []
+            for filename, file_obj in file_set:
+                file_refs = []
+                # Search through file line by line
+                for i, line in enumerate(file_obj.contents_split):
+                    if len(line) == 0:
                         continue
-                    ref_match = False
-                    try:
-                        # NOTE: throws AttributeError if object is intrinsic since
-                        # it will not have a FQSN
-                        # BUG: intrinsic objects should be excluded, but get_definition
-                        # does not recognise the arguments
-                        if def_fqsn == var_def.FQSN or var_def.FQSN in override_cache:
-                            ref_match = True
-                        # NOTE: throws AttributeError if object is None
-                        elif var_def.parent.get_type() == CLASS_TYPE_ID:
-                            if type_mem:
-                                for inherit_def in var_def.parent.get_overridden(
-                                    def_name
-                                ):
-                                    if def_fqsn == inherit_def.FQSN:
-                                        ref_match = True
-                                        override_cache.append(var_def.FQSN)
-                                        break
-
-                            # Standalone definition of a type-bound procedure,
-                            # no pointer replace all its instances in the current scope
-                            # NOTE: throws AttributeError if object has no link_obj
-                            if (
-                                var_def.sline - 1 == i
-                                and var_def.file_ast.path == filename
-                                and line.count("=>") == 0
-                                and var_def.link_obj is def_obj
-                            ):
-                                ref_objs.append(var_def)
-                                override_cache.append(var_def.FQSN)
-                                ref_match = True
-
-                        # Object is a Method and the linked object i.e. the
-                        # implementation
-                        # shares the same parent signature as the current variable
-                        # NOTE:: throws and AttributeError if the link_object or
-                        # parent are not present OR they are set to None
-                        # hence not having a FQSN
-                        elif (
-                            def_obj.get_type(True) == METH_TYPE_ID
-                            and def_obj.link_obj.parent.FQSN == var_def.parent.FQSN
-                        ):
-                            ref_match = True
-                            override_cache.append(var_def.FQSN)
-                    except AttributeError:
+                    # Skip comment lines
+                    line = file_obj.strip_comment(line)
+                    if (line == "") or (line[0] == "#"):
+                        continue
+                    for match in NAME_REGEX.finditer(line):
+                        var_def = self.get_definition(file_obj, i, match.start(1) + 1)
+                        if var_def is None:
+                            continue
                         ref_match = False
+                        try:
+                            # NOTE: throws AttributeError if object is intrinsic since
+                            # it will not have a FQSN
+                            # BUG: intrinsic objects should be excluded, but
+                            # get_definition does not recognise the arguments
+                            if (
+                                def_fqsn == var_def.FQSN
+                                or var_def.FQSN in override_cache
+                            ):
+                                ref_match = True
+                            # NOTE: throws AttributeError if object is None
+                            elif var_def.parent.get_type() == CLASS_TYPE_ID:
+                                if type_mem:
+                                    for inherit_def in var_def.parent.get_overridden(
+                                        def_name
+                                    ):
+                                        if def_fqsn == inherit_def.FQSN:
+                                            ref_match = True
+                                            override_cache.append(var_def.FQSN)
+                                            break
 
-                    if ref_match:
-                        file_refs.append([i, match.start(1), match.end(1)])
-            if len(file_refs) > 0:
-                refs[filename] = file_refs
+                                # Standalone definition of a type-bound procedure,
+                                # no pointer replace all its instances in the current
+                                # scope
+                                # NOTE: throws AttributeError if object has no link_obj
+                                if (
+                                    var_def.sline - 1 == i
+                                    and var_def.file_ast.path == filename
+                                    and line.count("=>") == 0
+                                    and var_def.link_obj is def_obj
+                                ):
+                                    ref_objs.append(var_def)
+                                    override_cache.append(var_def.FQSN)
+                                    ref_match = True
+
+                            # Object is a Method and the linked object i.e. the
+                            # implementation
+                            # shares the same parent signature as the current variable
+                            # NOTE:: throws and AttributeError if the link_object or
+                            # parent are not present OR they are set to None
+                            # hence not having a FQSN
+                            elif (
+                                def_obj.get_type(True) == METH_TYPE_ID
+                                and def_obj.link_obj.parent.FQSN == var_def.parent.FQSN
+                            ):
+                                ref_match = True
+                                override_cache.append(var_def.FQSN)
+                        except AttributeError:
+                            ref_match = False
+
+                        if ref_match:
+                            file_refs.append([i, match.start(1), match.end(1)])
+                if len(file_refs) > 0:
+                    refs[filename] = file_refs
+            if len(override_cache) == n_linked:
+                break
         return refs, ref_objs
 
     def serve_references(self, request):
